@@ -92,7 +92,7 @@ def parseTemps (t : String) : Option (Nat × Nat) :=
 
 def ansOf (w : W) : String :=
   let j := judge w.log
-  s!"o{j.live.length + w.lost.length * 0}a{j.allocs}f{j.frees}x{j.foreign}s{w.ss}c{w.ca}"
+  s!"o{j.live.length}a{j.allocs}f{j.frees}x{j.foreign}s{w.ss}c{w.ca}"
 
 def instLoop (fl : Flags) (ffi : Bool) : W → List String → Nat → List String → String
   | _, [], _, acc => " ".intercalate acc.reverse
